@@ -1,4 +1,5 @@
-import Pokerface.Proofs.EngineReach
+import Pokerface.Proofs.EngineResult
+import Pokerface.Generated.Tables
 /-
   C01 — Chips are conserved at every point of a hand.
 
@@ -59,5 +60,140 @@ example : Reachable ((start exCfg).1.run exOps) :=
 
 example : (((start exCfg).1.run exOps).players.map fun p => (p.stack, p.wager, p.pot)) = [(68, 30, 2), (0, 5, 2), (38, 10, 2)] := by
   decide
+
+/-! ## Published pots -/
+
+/-- Sentence 1, last clause ("whenever pots are published they add up to exactly what the
+    players have put in").  `updatePots` publishes `g.pots` at `AntePaid`, at every
+    `RoundClosed` and before settlement.  In every reachable state the pot totals add up to the
+    chips in the per-player pot accounts (`potSum` = Σ `pot`), plus — at `RoundClosed`, the
+    moment of publication, when the wagers of the round have not yet been swept — the wagers on
+    the table (`wagerSum` = Σ `wager`); i.e. at each publication they equal everything put in,
+    and in between (while a later round is played) they stay equal to the swept part. -/
+theorem pots_total {g : Game} (h : Reachable g) :
+    (g.pots.map (·.total)).sum = g.potSum + (if g.event = .roundClosed then g.wagerSum else 0) :=
+  pots_total_of (inv_reachable h) (potsOK_reachable h)
+
+/-- The same, spelled out for the two instants at which a driver reads the pots: at a closed
+    round they hold every chip the players have put in so far (bankroll minus stack). -/
+theorem pots_total_at_roundClosed {g : Game} (h : Reachable g) (he : g.event = .roundClosed) :
+    (g.pots.map (·.total)).sum = (g.players.map fun p => p.bankroll - p.stack).sum := by
+  rw [pots_total h, if_pos he]
+  have hi := (inv_reachable h).chips0.pinv
+  have : g.players.map (fun p => p.bankroll - p.stack) = g.players.map (fun p => p.pot + p.wager) :=
+    List.map_congr_left (fun p hp => by have := (hi p hp).split; omega)
+  rw [this, Game.potSum, Game.wagerSum]
+  exact sum_map_add g.players (·.pot) (·.wager)
+
+/-- Supporting fact (what makes C16 applicable to the engine): at `RoundClosed` and at
+    `GameClosed` the published pots are exactly `potsOf` of the per-player totals
+    `(idx, pot + wager, folded)` of the current players, and those entries are in C16's domain. -/
+theorem pots_published {g : Game} (h : Reachable g) (he : g.event = .roundClosed ∨ g.event = .gameClosed) :
+    g.pots = potsOf g.entries ∧ C16.Valid g.entries := by
+  have hi := inv_reachable h
+  refine ⟨?_, entries_valid hi.struct hi.chips0.pinv⟩
+  rcases he with he | he
+  · exact (potsOK_reachable h).closed he
+  · exact (resultGood_reachable h he).fresh
+
+/-! ## The closed hand -/
+
+/-- Sentence 2 ("When the hand closes the per-player changes sum to zero, every final stack
+    equals the starting bankroll plus that player's change and is never negative, and nobody
+    loses more than they put in").  In every reachable state whose event is `GameClosed` there is
+    a result; its `changed` column sums to zero; it lists exactly the seats, in seat order; and
+    for seat `i` with player record `p`: `finalStack = bankroll + changed`, `0 ≤ finalStack`,
+    and `changed ≥ −pot` where `p.pot` is everything the player put in (all wagers are zero at
+    that point, see `closed_accounts`).  No assumption on the hand strengths is needed. -/
+theorem closed_result {g : Game} (h : Reachable g) (he : g.event = .gameClosed) :
+    ∃ r, g.result = some r ∧ (r.players.map (·.changed)).sum = 0 ∧ r.players.length = g.n ∧
+      ∀ (i : Nat) (p : Player), g.players[i]? = some p → ∃ pr : PlayerResult, r.players[i]? = some pr ∧ pr.idx = i ∧
+        pr.finalStack = p.bankroll + pr.changed ∧ 0 ≤ pr.finalStack ∧ -p.pot ≤ pr.changed := by
+  have hi := inv_reachable h
+  exact resultGood_spec hi.struct hi.chips0.pinv (resultGood_reachable h he)
+
+/-- At `GameClosed` nothing is left on the table: every wager is zero, so a player's `pot`
+    account is everything that player put in (`bankroll − stack`). -/
+theorem closed_accounts {g : Game} (h : Reachable g) (he : g.event = .gameClosed) (p : Player) (hp : p ∈ g.players) :
+    p.wager = 0 ∧ p.pot = p.bankroll - p.stack := by
+  have hw := (resultGood_reachable h he).w0 p hp
+  have := ((inv_reachable h).chips0.pinv p hp).split
+  exact ⟨hw, by omega⟩
+
+/-- Sentence 2 in the property's own words: when the hand is closed, (1) the changes sum to
+    zero; for every seat (2) final stack = starting bankroll + change, (3) the final stack is
+    not negative, (4) the loss is at most the chips put in (`bankroll − stack`). -/
+theorem hand_closes_balanced {g : Game} (h : Reachable g) (he : g.event = .gameClosed) :
+    ∃ r, g.result = some r ∧ (r.players.map (·.changed)).sum = 0 ∧
+      ∀ (i : Nat) (p : Player) (pr : PlayerResult), g.players[i]? = some p → r.players[i]? = some pr →
+        pr.finalStack = p.bankroll + pr.changed ∧ 0 ≤ pr.finalStack ∧ -(p.bankroll - p.stack) ≤ pr.changed := by
+  obtain ⟨r, hr, hz, _, hall⟩ := closed_result h he
+  refine ⟨r, hr, hz, ?_⟩
+  intro i p pr hp hpr
+  obtain ⟨pr', hpr', _, h1, h2, h3⟩ := hall i p hp
+  rw [hpr] at hpr'; cases hpr'
+  have := (closed_accounts h he p (List.mem_of_getElem? hp)).2
+  exact ⟨h1, h2, by omega⟩
+
+/-- The result of a closed hand is C02's showdown function applied to the engine's own players
+    (seat, bankroll, chips put in, fold flag, published strength), so every theorem of C02 about
+    `C02.settle` speaks about the engine's result (those that need positive strengths under that
+    extra hypothesis). -/
+theorem closed_result_is_settle {g : Game} (h : Reachable g) (he : g.event = .gameClosed) :
+    g.result = some (C02.settle g.seats) :=
+  (resultGood_reachable h he).settle
+
+/-- Once closed, nothing changes any more (from C06): the statements above hold for the closed
+    hand whatever is called afterwards. -/
+theorem closed_is_final {g : Game} (h : Reachable g) (he : g.event = .gameClosed) (op : Op) : (g.step op).1 = g :=
+  (closed_refuses g (inv_reachable h) he op).2
+
+/-! ## Non-vacuity: a three-seat hand with two side pots played to `GameClosed` -/
+
+/-- Standard power table; seat 1 (7 chips) is all-in by ante + small blind and holds aces, seat 2
+    (50 chips) holds kings, seat 0 (100 chips) holds 7-2. -/
+def sideCfg : Config :=
+  { opts := { ante := 2, blindDealer := 0, blindSB := 5, blindBB := 10, potLimit := false, holeCount := 2, required := 0,
+              lvl := Generated.combinationLevel, table := Generated.powerStandard,
+              deck := [⟨67, 2⟩, ⟨68, 7⟩, ⟨83, 14⟩, ⟨72, 14⟩, ⟨83, 13⟩, ⟨72, 13⟩, ⟨67, 3⟩, ⟨68, 9⟩, ⟨67, 5⟩, ⟨72, 11⟩,
+                       ⟨68, 3⟩, ⟨67, 12⟩, ⟨68, 4⟩, ⟨83, 8⟩, ⟨83, 2⟩] },
+    seats := [{ bankroll := 100, dealer := true, sb := false, bb := false },
+              { bankroll := 7, dealer := false, sb := true, bb := false },
+              { bankroll := 50, dealer := false, sb := false, bb := true }] }
+
+def sideOps : List Op :=
+  [.ready, .payAnte, .payBlinds, .ready, .act none .allin 0, .act none .pass 0, .act none .allin 0,
+   .next, .next, .next, .next]
+
+def sideAt (k : Nat) : Game := (start sideCfg).1.run (sideOps.take k)
+
+theorem sideReach (k : Nat) : Reachable (sideAt k) :=
+  ⟨sideCfg, sideOps.take k, ⟨⟨by decide, by decide, by decide, by decide⟩⟩, by decide, rfl⟩
+
+/-- pots published at `AntePaid` (one pot of 6 = three antes), still 6 = Σ pot while the preflop
+    round is played with 113 chips of wagers on the table -/
+example : ((sideAt 6).event, (sideAt 6).pots.map (fun p => (p.level, p.total)), (sideAt 6).potSum, (sideAt 6).wagerSum)
+    = (.roundStarted, [(2, 6)], 6, 113) := by decide
+
+/-- `RoundClosed` after the two all-ins: three pots 21 + 86 + 50 = 157 = 6 (pot accounts) + 151 (wagers) -/
+example : ((sideAt 7).event, (sideAt 7).pots.map (fun p => (p.level, p.total)), (sideAt 7).potSum, (sideAt 7).wagerSum)
+    = (.roundClosed, [(7, 21), (50, 86), (100, 50)], 6, 151) := by decide
+
+/-- the flop closed at once (nobody can act): same pots, everything swept into the pot accounts -/
+example : ((sideAt 8).event, (sideAt 8).round, ((sideAt 8).pots.map (·.total)).sum, (sideAt 8).potSum, (sideAt 8).wagerSum)
+    = (.roundClosed, .flop, 157, 157, 0) := by decide
+
+/-- `GameClosed`: seat 1 wins the main pot (+14), seat 2 the first side pot (+36), seat 0 gets the
+    uncalled 50 back and loses 50; 14 + 36 − 50 = 0; final stacks 50, 21, 86 -/
+example : ((sideAt 11).event, (sideAt 11).pots.map (fun p => (p.level, p.total)),
+      (sideAt 11).result.map (fun r => r.players.map fun p => (p.idx, p.finalStack, p.changed)))
+    = (.gameClosed, [(7, 21), (50, 86), (100, 50)], some [(0, 50, -50), (1, 21, 14), (2, 86, 36)]) := by decide
+
+example : (sideAt 11).players.map (fun p => (p.bankroll, p.stack, p.wager, p.pot))
+    = [(100, 0, 0, 100), (7, 0, 0, 7), (50, 0, 0, 50)] := by decide
+
+/-- the hypotheses of `closed_result` / `pots_published` hold for that state -/
+example : Reachable (sideAt 11) ∧ (sideAt 11).event = .gameClosed := ⟨sideReach 11, by decide⟩
+example : Reachable (sideAt 7) ∧ (sideAt 7).event = .roundClosed := ⟨sideReach 7, by decide⟩
 
 end Pokerface.C01
